@@ -4,7 +4,7 @@ import GrinVerif.Lemmas.SerBits
 /-! # C10 / C11 — the JSON (serde) forms: hex field codecs
 
 Round trip `from_hex(to_hex b) = b` for ALL byte strings through the faithful model of
-`util::from_hex` (trim, `0x` prefixes, `from_str_radix`), hence round trips of the four byte-string
+`util::from_hex` (`utilFromHex_toHexB`: trim, `0x` prefixes, length / ASCII guard, `from_str_radix`), hence round trips of the four byte-string
 field codecs of `secp_ser.rs` on the values the writers produce; what the readers accept beyond that
 (any length for commitments and blinding factors: padded / truncated - normalised, not refused); no
 string makes any of the four field readers panic (the range-proof reader did for more than 675 bytes
@@ -90,6 +90,102 @@ theorem toHexB_chars (b : Bytes) (hb : AllBytes b) : ∀ c ∈ toHexB b, (48 ≤
     · unfold hexLow; split <;> omega
     · unfold hexLow; split <;> omega
     · exact ih hr c hc
+
+def HexCh (c : Nat) : Prop := (48 ≤ c ∧ c ≤ 57) ∨ (97 ≤ c ∧ c ≤ 102)
+
+theorem wsSuffixRev_hex (c : Nat) (r : Bytes) (hc : HexCh c) : wsSuffixRev (c :: r) = 0 := by
+  unfold HexCh at hc
+  unfold wsSuffixRev
+  split
+  all_goals first
+    | (rename_i heq; simp only [List.cons.injEq] at heq; omega)
+    | (rename_i heq; simp only [List.cons.injEq] at heq; obtain ⟨h1, _⟩ := heq; subst h1; simp; omega)
+    | simp at *
+
+theorem wsPrefix_hex (c : Nat) (r : Bytes) (hc : HexCh c) : wsPrefix (c :: r) = 0 := by
+  unfold HexCh at hc
+  unfold wsPrefix
+  split
+  all_goals first
+    | (rename_i heq; simp only [List.cons.injEq] at heq; omega)
+    | (rename_i heq; simp only [List.cons.injEq] at heq; obtain ⟨h1, _⟩ := heq; subst h1; simp; omega)
+    | simp at *
+
+theorem trimStartFuel_hex (n c : Nat) (r : Bytes) (hc : HexCh c) : trimStartFuel n (c :: r) = c :: r := by
+  cases n with
+  | zero => rfl
+  | succ f =>
+    unfold trimStartFuel
+    rw [wsPrefix_hex c r hc]
+    rfl
+
+theorem trimEndRevFuel_hex (n c : Nat) (r : Bytes) (hc : HexCh c) : trimEndRevFuel n (c :: r) = c :: r := by
+  cases n with
+  | zero => rfl
+  | succ f =>
+    unfold trimEndRevFuel
+    rw [wsSuffixRev_hex c r hc]
+    rfl
+
+theorem strTrim_hex (h : Bytes) (hh : ∀ c ∈ h, HexCh c) : strTrim h = h := by
+  unfold strTrim
+  cases h with
+  | nil => rfl
+  | cons c r =>
+    simp only
+    rw [trimStartFuel_hex _ c r (hh c (List.mem_cons_self ..))]
+    cases hrev : (c :: r).reverse with
+    | nil => simp at hrev
+    | cons d t =>
+      have hd : HexCh d := hh d (by rw [← List.mem_reverse, hrev]; exact List.mem_cons_self ..)
+      rw [trimEndRevFuel_hex _ d t hd, ← hrev, List.reverse_reverse]
+
+theorem trim0x_hex (h : Bytes) (hh : ∀ c ∈ h, HexCh c) : trim0x h = h := by
+  unfold trim0x
+  split
+  · rename_i r
+    have := hh 0x78 (by simp)
+    unfold HexCh at this
+    omega
+  · rfl
+
+/-- `from_hex(to_hex(b)) = b` for ALL byte strings, through the whole of `util::from_hex`
+(`trim()`, the `0x` prefixes, the length / ASCII guard, the conversion loop) -/
+theorem utilFromHex_toHexB (b : Bytes) (hb : AllBytes b) : utilFromHex (toHexB b) = .ok b := by
+  have hch : ∀ c ∈ toHexB b, HexCh c := toHexB_chars b hb
+  unfold utilFromHex
+  simp only [strTrim_hex _ hch, trim0x_hex _ hch]
+  have hlen : (toHexB b).length % 2 = 0 := by rw [toHexB_length]; omega
+  have hasc : isAscii (toHexB b) = true := by
+    unfold isAscii
+    rw [List.all_eq_true]
+    intro c hc
+    have := toHexB_ascii b hb c hc
+    simpa using this
+  simp [hlen, hasc, hexLoop_toHexB b hb]
+
+/-- hence the field round trips on what the writers emit: a 33-byte commitment, a 32-byte blinding
+factor, a range proof of at most 675 bytes written with `as_hex` read back as themselves -/
+theorem commit_field_roundtrip (c : Bytes) (hb : AllBytes c) (hl : c.length = 33) :
+    commitFromHex (toHexB c) = .ok c := by
+  have hp : padTo 33 c = c := by rw [← hl]; simp [padTo]
+  simp [commitFromHex, ofHex, utilFromHex_toHexB c hb, hp]
+
+theorem blind_field_roundtrip (c : Bytes) (hb : AllBytes c) (hl : c.length = 32) :
+    blindFromHex (toHexB c) = .ok c := by
+  have hp : padTo 32 c = c := by rw [← hl]; simp [padTo]
+  simp [blindFromHex, ofHex, utilFromHex_toHexB c hb, hp]
+
+theorem proof_field_roundtrip (c : Bytes) (hb : AllBytes c) (hl : c.length ≤ MAX_PROOF) :
+    proofFromHex (toHexB c) = .ok c := by
+  have : ¬ c.length > MAX_PROOF := by omega
+  simp [proofFromHex, ofHex, utilFromHex_toHexB c hb, this]
+
+theorem sig_field_roundtrip (valid : Bytes → Bool) (c : Bytes) (hb : AllBytes c) (hl : c.length = 64)
+    (hv : valid c = true) : sigFromHex valid (toHexB c) = .ok c := by
+  have h1 : ¬ c.length < 64 := by omega
+  have h2 : c.take 64 = c := by rw [← hl]; exact List.take_length
+  simp [sigFromHex, ofHex, utilFromHex_toHexB c hb, h1, h2, hv]
 
 /-- field codecs, given that `from_hex` returned the bytes (`h`): what each conversion does -/
 theorem commit_field (s b : Bytes) (h : utilFromHex s = .ok b) : commitFromHex s = .ok (padTo 33 b) := by
